@@ -210,6 +210,21 @@ func (ex *Exec) step(st *State) (extra []*State) {
 	if th.panicking != nil {
 		return ex.unwind(st, th)
 	}
+	wasVisible := false
+	if len(st.threads) > 1 {
+		if th.done || ex.atVisible(st, th) {
+			if !st.committed || !ex.canProceed(st, th) {
+				st.committed = false
+				return ex.scheduleFork(st)
+			}
+			wasVisible = true
+		}
+		defer func() {
+			if wasVisible {
+				st.committed = false
+			}
+		}()
+	}
 	f := th.top()
 	if f.ip >= len(f.block.Instrs) {
 		unsupported("fell off block in %v", f.fn)
@@ -754,11 +769,11 @@ func (ex *Exec) uncaughtPanic(st *State, th *Thread) {
 
 func (ex *Exec) threadExit(st *State, th *Thread) {
 	if th.id == 0 {
-		// harness entry returned: path complete
+		// harness entry returned: path complete (as in Go, the program ends with main)
 		ex.endPath(st, "done")
 		return
 	}
-	ex.schedule(st)
+	st.committed = false // next step schedules another thread
 }
 
 var _ = token.NoPos
